@@ -87,7 +87,7 @@ class ClassType(abc.ABC):
         Returns:
             The float score value.
         """
-        if not obj:
+        if obj is None:
             return -1.0
 
         def score(value: Any) -> float:
